@@ -18,6 +18,7 @@ Mask2D.resized_from, OverSamplerUniform.over_sampled_grid, BorderRelocator.sub_g
 import numpy as np
 
 from harness import env, gen, gen_aa
+from harness import ref as _refmod
 
 ID = "C12"
 NO = 12
@@ -37,7 +38,7 @@ ENTRY = ["Grid2D.from_mask", "derive_grid.all_false", "derive_grid.unmasked", "d
          "Imaging.trimmed_after_convolution_from", "SimulatorImaging.via_image_from", "preprocess.noise_map_with_signal_to_noise_limit_from",
          "geometry.pixel_coordinates_2d_from", "geometry.grid_pixel_indexes_2d_from", "MapperRectangular", "MapperDelaunay",
          "BorderRelocator.relocated_grid_from", "derive_mask.origins", "ImageMesh.mesh_pixels_per_image_pixels_from",
-         "OverSamplingUniform(shared scheme)"]
+         "OverSamplingUniform(shared scheme)", "OverSamplingUniform.from_radial_bins"]
 MIN_MONITORS = {"*": dict({"covariance:" + e: 1 for e in ENTRY}, **{"covariance:Hilbert.image_plane_mesh_grid_from": 1})}
 
 
@@ -198,6 +199,35 @@ def world(ctx, rng_seed, m, ps, origin, kshape, shared=None):
         ob.coord("Grid2D.subtracted_from", "subtracted.mask_origin", np.array(gs.mask.origin))
         ob.coord("Grid2D.subtracted_from", "subtracted.from_mask", aa.Grid2D.from_mask(mask=gs.mask))
     run("Grid2D.subtracted_from", subtracted)
+
+    def subtracted_axis():
+        # a translation along ONE axis (the other component exactly zero), as a tuple, a list and an array: the grid the structure
+        # returns is the input translated by exactly -offset (judged directly, and observed for the comparison of the two worlds)
+        g0 = np.array(_np(aa.Grid2D.from_mask(mask=mask)), dtype=float)
+        tol_ = 1e-9 * max(max(ps), float(np.abs(o).max()), 1.0)
+        for nm, off in (("y_only", (float(r.normal() * ps[0]), 0.0)), ("x_only", [0.0, float(r.normal() * ps[1])]),
+                        ("x_only_array", np.array([0.0, float(r.uniform(0.2, 2.0) * ps[1])]))):
+            gs = aa.Grid2D.from_mask(mask=mask).subtracted_from(offset=off)
+            got = np.array(_np(gs), dtype=float)
+            ctx.check(got.shape == g0.shape and bool(np.all(np.abs(got - (g0 - np.asarray(off, float))) <= tol_)), "covariance:Grid2D.subtracted_from",
+                      result="subtracted." + nm, kind="translation by -offset", offset=np.asarray(off, float), mask=m, origin=o)
+            ob.coord("Grid2D.subtracted_from", "subtracted_axis." + nm, gs)
+    run("Grid2D.subtracted_from", subtracted_axis)
+
+    def radial_bins():
+        # adaptive sub-size map from radial bins about the mask centre (the default centre): count-valued; the radii are in generic
+        # position (a pixel centre within 1e-6 of a bin edge makes the whole observation don't-care)
+        g_ = aa.Grid2D.from_mask(mask=mask)
+        ext = max(H * ps[0], W * ps[1])
+        radial_list = [float(r.uniform(0.12, 0.3) * ext), float(r.uniform(0.35, 0.6) * ext), 1.0e6 * ext]
+        cen = np.asarray(mask.mask_centre, dtype=float)
+        dist = np.hypot(*(_refmod.slim_centres(m, ps, tuple(origin)) - cen).T)
+        if any(np.any(np.abs(dist - rk) < 1e-6 * ext) for rk in radial_list[:2]):
+            ob.ties.add("OverSamplingUniform.from_radial_bins")
+        osu = aa.OverSamplingUniform.from_radial_bins(grid=g_, sub_size_list=[4, 2, 1], radial_list=radial_list)
+        ob.inv("OverSamplingUniform.from_radial_bins", "radial_bins.sub_size", np.asarray(_np(osu.sub_size)).astype(np.int64))
+        ob.coord("OverSamplingUniform.from_radial_bins", "radial_bins.over_sampled", aa.Grid2D.from_mask(mask=mask, over_sampling=osu).over_sampler.over_sampled_grid)
+    run("OverSamplingUniform.from_radial_bins", radial_bins)
 
     def dm():
         d_ = mask.derive_mask
